@@ -50,6 +50,9 @@ def run(ctx):
         for begun, ni0 in ((1, 45), (1, 10000), (0, 45), (0, 46), (0, 9999), (0, 10000)):
             sweeps.run_sweep(ctx, "c13v", [[begun, ni0]], "C13", stdin_data=data, binary=binary)
         rep.need("values", rep.counters.get("sweep_c13v_cases", 0), 300000)
+        rep.sample(dict(begun=1, prior_count=45, r_values=[vals[k] for k in (0, 1, 2, 46, 70001, len(vals) // 2, len(vals) - 2, len(vals) - 1)],
+                        oracle="Ni == min(10000, 45*r*r) in 128-bit arithmetic; r reset to 0; next Hello >= max(ceil(8*Ni/3), 6) ms away; "
+                               "Ni and the interval never decrease as r (>= 1) ascends"))
     else:
         binary = H.build(ctx.work, "plain", program="vh_sweep", esp32=False)
         step = 2 ** 32 // 16
